@@ -114,7 +114,7 @@ def run(ctx):
     w5 = core.Filtered(rep, lambda rule, anchor, instance: rule == "W4" and instance in ("write_str:calls-writer-with-the-bytes", "only-write_str-reaches-the-writer"))
     rep.guarded("W4", "anstream::fmt::Adapter", lambda: stripstream.rule_adapter(facts, w5, "anstream", "anstream::fmt::"))
     rep.guarded("decoder", "anstream::adapter::strip::Utf8Parser::add", lambda: rule_decoder(facts, rep))
-    for r, n in (("decoder", 3), ("table", 16), ("keep", 17), ("S1", 7), ("S2", 8), ("S3", 3), ("S4", 3), ("S5", 12), ("S6", 5), ("between-slices", 1), ("reach", 18), ("W1", 4), ("W3", 1), ("W4", 3)):
+    for r, n in (("decoder", 3), ("table", 16), ("keep", 17), ("S1", 7), ("S2", 8), ("S3", 3), ("S4", 3), ("S5", 12), ("S6", 5), ("between-slices", 1), ("reach", 18), ("W1", 7), ("W3", 1), ("W4", 3)):
         rep.floor(r, n)
 
 
